@@ -197,6 +197,9 @@ namespace chaiscript {
 
     bool is_return_value() const noexcept { return m_data->m_return_value; }
 
+    /// true if no other Boxed_Value (variable, parameter, capture, container element, saved call operand) shares this object
+    bool is_unique_handle() const noexcept { return m_data.use_count() == 1; }
+
     void reset_return_value() const noexcept { m_data->m_return_value = false; }
 
     bool is_pointer() const noexcept { return !is_ref(); }
